@@ -34,7 +34,25 @@ func TestMain(m *testing.M) {
 	os.Exit(rc)
 }
 
-// ---------------------------------------------------------------- known-finding signatures (see FINDINGS.md)
+// ---------------------------------------------------------------- known-finding signatures
+//
+// Three violations exist on the unchanged tree (minimal reproductions: replays/C17-*.json, FailRecord format):
+//
+// sigRawBackground: GET raw / 2-D slices return 0, not the instance's Background, for voxels of blocks that were
+// never written: the handlers allocate a zeroed buffer (imageblk.go:1339-1349 NewVoxels) and GetVoxels only visits
+// stored blocks (read.go:375-435); GetBlocks (read.go:472-477) and BackgroundBlock (read.go:287) do use Background.
+//
+// sigBlocksMultibyte: PutBlocks sizes a block as BlockSize().Prod() bytes (write.go:229) instead of
+// Prod()*BytesPerElement (cf. read.go:469), so POST blocks on uint16/32/64, float32 and rgba8 stores truncated blocks;
+// GET blocks then returns background (read.go:566), and GET raw over such a block panics in the readChunk goroutine
+// (read.go:227 via read.go:657), which kills the process.  The check reads back through GET blocks first so that it
+// reports before it would issue the crashing request.
+//
+// sigBlocksExtents: PutBlocks (write.go:217-304) never posts extents (PutVoxels does, write.go:170-175), so info /
+// metadata extents do not cover voxels written through POST blocks.
+//
+// When a signature is listed in VERIF_KNOWN_SIGS the generator steers around its shape (see genImgCase) and sets the
+// corresponding case field so that a replay behaves the same without the environment.
 
 const (
 	sigRawBackground   = "C17/GET-raw/unwritten-voxels-not-background"
@@ -70,8 +88,8 @@ type imgCase struct {
 	BlocksOnlyOverwrite bool `json:"blocks_only_overwrite,omitempty"`
 	// BlockReadsOnly (set by the generator when sigRawBackground is a listed finding and the background is
 	// non-zero): no GET raw over unwritten voxels; the read-back of a write uses raw only if the whole box is written.
-	BlockReadsOnly bool `json:"block_reads_only,omitempty"`
-	Ops  []imgOp    `json:"ops"`
+	BlockReadsOnly bool    `json:"block_reads_only,omitempty"`
+	Ops            []imgOp `json:"ops"`
 }
 
 var bytesPerVoxel = map[string]int{"uint8blk": 1, "uint16blk": 2, "uint32blk": 4, "uint64blk": 8, "float32blk": 4, "rgba8blk": 4}
